@@ -203,6 +203,26 @@ func globMatch(p, s []rune) bool {
 	return len(s) == 0
 }
 
+// rowProne is the recognizer of the known finding C15-ignore-qmark-non-ascii:
+// a pattern of fixed length ('?' but no '*') applied to a path with a
+// multi-byte rune. gobwas/glob compiles such a pattern to match.Row, whose
+// matchAll slices the path as if the last rune of every segment were one byte
+// long, so the pattern can fail to match what it describes.
+func rowProne(p c15Pattern, rel string) bool {
+	s := string(p)
+	return strings.Contains(s, "?") && !strings.Contains(s, "*") && len(rel) != utf8.RuneCountInString(rel)
+}
+
+func withoutRowProne(ps []c15Pattern, rel string) []c15Pattern {
+	var out []c15Pattern
+	for _, p := range ps {
+		if !rowProne(p, rel) {
+			out = append(out, p)
+		}
+	}
+	return out
+}
+
 func ignoredByPattern(ps []c15Pattern, rel string) bool {
 	for _, p := range ps {
 		if globMatch(p, []rune(rel)) {
@@ -753,6 +773,7 @@ func runC15Dir(rec *kit.Recorder, c c15Case) error {
 	}
 	pruned := map[string]bool{} // directories that are not descended into
 	want := map[string][]string{}
+	maybe := map[string]string{} // ignored only through a pattern the known glob defect can break: path -> document if it is not ignored
 	var labels []string
 	nt := false
 	for _, e := range c.Entries {
@@ -776,6 +797,14 @@ func runC15Dir(rec *kit.Recorder, c c15Case) error {
 		if ignoredByPattern(patterns, e.Path) {
 			if e.Kind == "dir" {
 				pruned[e.Path] = true
+			} else if !ignoredByPattern(withoutRowProne(patterns, e.Path), e.Path) {
+				switch e.Kind {
+				case "file":
+					maybe[e.Path], _ = o.stored(e.Path, e.Content)
+				case "symlink":
+					maybe[e.Path], _ = o.stored(e.Path, []byte(resolve(e.Target)))
+				}
+				labels = append(labels, "skipped:by-?-pattern-on-non-ascii-path")
 			}
 			labels = append(labels, "skipped:ignore-pattern/"+e.Kind)
 			nt = true
@@ -830,8 +859,18 @@ func runC15Dir(rec *kit.Recorder, c c15Case) error {
 			}
 		}
 	}
+	var notIgnored []string
+	for _, p := range kit.SortedKeys(maybe) {
+		if g := got[p]; len(g) == 1 && g[0] == maybe[p] {
+			delete(got, p)
+			notIgnored = append(notIgnored, p)
+		}
+	}
 	if d := diffDocs(want, got); d != "" {
 		return kit.Fail("docset", "directory tree indexed with ignore dirs %q:%s", c.IgnoreDirs, d)
+	}
+	if len(notIgnored) > 0 {
+		return kit.FailKnown("C15-ignore-qmark-non-ascii", "ignore-pattern", "indexed although .sourcegraph/ignore excludes them with a '?' pattern: %q", notIgnored)
 	}
 	return nil
 }
